@@ -121,10 +121,15 @@ func OneDispatch(c *core.Ctx, rule string, p *packages.Package) {
 				}
 				n++
 				key := fb.Name + "/" + po.Name()
+				selfFn := info.Defs[fb.Decl.Name]
 				handsOver := func(nd ast.Node) bool {
 					return nodeContains(nd, true, func(x ast.Node) bool {
 						switch s := x.(type) {
 						case *ast.CallExpr:
+							// the method calling itself with the same call-back is the retry of a lost CAS, not a second registration
+							if callee := calleeOf(info, s); callee != nil && selfFn != nil && (callee == selfFn || callee.Origin() == selfFn) {
+								return false
+							}
 							for _, a := range s.Args {
 								if objOf(info, a) == po {
 									return true
@@ -356,4 +361,205 @@ func isParamVar(fb *fnBody, info *types.Info, v *types.Var) bool {
 		})
 	}
 	return found
+}
+
+// UserOncePerCell (C16): the two thunks of a lazy list cell (head, tail) do not both apply the user's function.
+func UserOncePerCell(c *core.Ctx, rule string, pkgs []*packages.Package) {
+	c.Rule(rule, "in a function that builds a lazy cell with fp.MakeList(head, tail), a function-typed parameter — or a local function obtained by wrapping it (w := wrap(fn), w of function type) — is not *called* inside both thunk literals: a user function applied once per cell is applied by one thunk (or through one shared memoised lazy.Call), otherwise forcing head and tail runs it twice for the same element")
+	n := 0
+	for _, fb := range funcBodies(c, pkgs) {
+		if fb.Lit != nil || fb.Decl == nil || fb.Body == nil {
+			continue
+		}
+		info := fb.Pkg.TypesInfo
+		userFns := map[types.Object]bool{}
+		for _, f := range fb.Type.Params.List {
+			for _, nm := range f.Names {
+				if o := info.Defs[nm]; o != nil {
+					if _, isFn := o.Type().Underlying().(*types.Signature); isFn {
+						userFns[o] = true
+					}
+				}
+			}
+		}
+		if len(userFns) == 0 {
+			continue
+		}
+		// wrappers: w := g(fn) where w has function type
+		ast.Inspect(fb.Body, func(x ast.Node) bool {
+			as, ok := x.(*ast.AssignStmt)
+			if !ok || as.Tok != token.DEFINE || len(as.Lhs) != 1 || len(as.Rhs) != 1 {
+				return true
+			}
+			call, ok := ast.Unparen(as.Rhs[0]).(*ast.CallExpr)
+			if !ok {
+				return true
+			}
+			id, ok := as.Lhs[0].(*ast.Ident)
+			if !ok || info.Defs[id] == nil {
+				return true
+			}
+			if _, isFn := info.Defs[id].Type().Underlying().(*types.Signature); !isFn {
+				return true
+			}
+			for _, a := range call.Args {
+				if userFns[objOf(info, a)] {
+					userFns[info.Defs[id]] = true
+				}
+			}
+			return true
+		})
+		ast.Inspect(fb.Body, func(x ast.Node) bool {
+			call, ok := x.(*ast.CallExpr)
+			if !ok || len(call.Args) != 2 {
+				return true
+			}
+			callee := calleeOf(info, call)
+			if callee == nil || !funcIs(callee, "fp", "MakeList") {
+				return true
+			}
+			h, ok1 := ast.Unparen(call.Args[0]).(*ast.FuncLit)
+			t, ok2 := ast.Unparen(call.Args[1]).(*ast.FuncLit)
+			if !ok1 || !ok2 {
+				return true
+			}
+			calls := func(lit *ast.FuncLit) map[types.Object]*ast.CallExpr {
+				out := map[types.Object]*ast.CallExpr{}
+				ast.Inspect(lit.Body, func(y ast.Node) bool {
+					if _, isLit := y.(*ast.FuncLit); isLit && y != ast.Node(lit) {
+						return false // a nested literal is deferred work of its own (judged where it is forced)
+					}
+					if cc, ok := y.(*ast.CallExpr); ok {
+						if o := objOf(info, cc.Fun); o != nil && userFns[o] && out[o] == nil {
+							out[o] = cc
+						}
+					}
+					return true
+				})
+				return out
+			}
+			hc, tc := calls(h), calls(t)
+			n++
+			key := fb.Name + "/MakeList"
+			var bad *ast.CallExpr
+			for o, cc := range tc {
+				if hc[o] != nil && (bad == nil || cc.Pos() < bad.Pos()) {
+					bad = cc
+				}
+			}
+			if bad != nil {
+				c.Add(rule, key, bad.Pos(), core.Violated, "both the head thunk and the tail thunk call "+exprString(bad.Fun)+": forcing the head and then the tail of one cell applies the user's function twice to the same element")
+			} else {
+				c.Add(rule, key, call.Pos(), core.Discharged, "no user function is called by both thunks")
+			}
+			return true
+		})
+	}
+	c.Floor(rule, "MakeList cells in functions with a function parameter", n, 6)
+}
+
+// SkipEmpty (C20, C12): an iterator combinator that obtains inner iterators from a user function keeps asking until
+// one of them has an element.
+func SkipEmpty(c *core.Ctx, rule string, pkgs []*packages.Package) {
+	c.Rule(rule, "in the iterator packages, a call of a function-typed parameter that returns an fp.Iterator (the inner iterator of a flat-map) made inside a function literal lies inside a for loop of the enclosing declaration, or inside a literal / declaration that refers to itself (recursion): an inner iterator may be empty, so answering from the first one obtained loses the elements behind it")
+	n := 0
+	for _, fb := range funcBodies(c, pkgs) {
+		if fb.Lit != nil || fb.Decl == nil || fb.Body == nil {
+			continue
+		}
+		info := fb.Pkg.TypesInfo
+		inner := map[types.Object]bool{}
+		for _, f := range fb.Type.Params.List {
+			for _, nm := range f.Names {
+				if o := info.Defs[nm]; o != nil {
+					if sig, isFn := o.Type().Underlying().(*types.Signature); isFn && sig.Results().Len() == 1 && isNamed(sig.Results().At(0).Type(), "fp", "Iterator") {
+						inner[o] = true
+					}
+				}
+			}
+		}
+		if len(inner) == 0 {
+			continue
+		}
+		self := info.Defs[fb.Decl.Name]
+		declRecursive := nodeContains(fb.Body, true, func(x ast.Node) bool {
+			id, ok := x.(*ast.Ident)
+			return ok && self != nil && info.Uses[id] == self
+		})
+		// literals bound to a local that they mention themselves
+		selfRef := map[*ast.FuncLit]bool{}
+		ast.Inspect(fb.Body, func(x ast.Node) bool {
+			var lhs []ast.Expr
+			var rhs []ast.Expr
+			switch s := x.(type) {
+			case *ast.AssignStmt:
+				lhs, rhs = s.Lhs, s.Rhs
+			case *ast.ValueSpec:
+				for _, nm := range s.Names {
+					lhs = append(lhs, nm)
+				}
+				rhs = s.Values
+			}
+			if len(lhs) != len(rhs) {
+				return true
+			}
+			for i, r := range rhs {
+				lit, ok := ast.Unparen(r).(*ast.FuncLit)
+				if !ok {
+					continue
+				}
+				o := objOf(info, lhs[i])
+				if id, isId := lhs[i].(*ast.Ident); isId && o == nil {
+					o = info.Defs[id]
+				}
+				if o != nil && nodeContains(lit.Body, true, func(y ast.Node) bool {
+					id, ok := y.(*ast.Ident)
+					return ok && info.Uses[id] == o
+				}) {
+					selfRef[lit] = true
+				}
+			}
+			return true
+		})
+		var stack []ast.Node
+		ast.Inspect(fb.Body, func(x ast.Node) bool {
+			if x == nil {
+				stack = stack[:len(stack)-1]
+				return true
+			}
+			stack = append(stack, x)
+			call, ok := x.(*ast.CallExpr)
+			if !ok || !inner[objOf(info, call.Fun)] {
+				return true
+			}
+			inLit, inLoop, inSelf := false, false, declRecursive
+			for _, anc := range stack {
+				switch a := anc.(type) {
+				case *ast.FuncLit:
+					// the thunks of the iterator protocol take no parameters; a literal with parameters (Compose's
+					// func(a A) Iterator[C]) is a function the caller applies, not a per-demand step
+					if a.Type.Params.NumFields() == 0 {
+						inLit = true
+					}
+					if selfRef[a] {
+						inSelf = true
+					}
+				case *ast.ForStmt, *ast.RangeStmt:
+					inLoop = true
+				}
+			}
+			if !inLit {
+				return true // applied eagerly, once, when the combinator is called: not a per-demand inner iterator
+			}
+			n++
+			key := fb.Name + "/" + exprString(call.Fun)
+			if inLoop || inSelf {
+				c.Add(rule, key, call.Pos(), core.Discharged, "inner iterators are requested in a loop / recursively")
+			} else {
+				c.Add(rule, key, call.Pos(), core.Violated, "the inner iterator "+exprString(call)+" is obtained once per demand, outside any loop or recursion: when it is empty the combinator answers from it although later inner iterators have elements (HasNext false while elements remain)")
+			}
+			return true
+		})
+	}
+	c.Floor(rule, "inner-iterator requests inside protocol thunks", n, 2)
 }
